@@ -1,20 +1,20 @@
 #!/bin/bash
 # usage: tools/seed_confirm.sh <worktree> <seeded-dir> <demo dest (relative to worktree)> <crate> <test name> [crates whose existing tests are run with the change...]
 # confirms a seeded change in a scratch worktree: demo passes clean, fails with the change, the listed crates' tests pass with the change
-WT=$1; D=$2; DEST=$3; CR=$4; T=$5; shift 5
+TD=$(mktemp -d); WT=$1; D=$2; DEST=$3; CR=$4; T=$5; shift 5
 cd $WT || exit 9
 git checkout -q -- . ; git clean -fdq -e OUT -e target
 mkdir -p $(dirname $DEST); cp /verif/$D/demo.rs $DEST
 export CARGO_NET_OFFLINE=true
-cargo test --offline -j 12 -p $CR --test $T > /tmp/sc_clean.txt 2>&1; RC_CLEAN=$?
+cargo test --offline -j 12 -p $CR --test $T > $TD/sc_clean.txt 2>&1; RC_CLEAN=$?
 git apply /verif/$D/patch.diff || { echo "patch does not apply"; exit 8; }
-cargo test --offline -j 12 -p $CR --test $T > /tmp/sc_mut.txt 2>&1; RC_MUT=$?
+cargo test --offline -j 12 -p $CR --test $T > $TD/sc_mut.txt 2>&1; RC_MUT=$?
 rm -f $DEST; rmdir $(dirname $DEST) 2>/dev/null
 SUITE=""
 for c in "$@"; do
-  cargo test --offline -j 12 -p $c > /tmp/sc_suite_$c.txt 2>&1; rc=$?
-  SUITE="$SUITE $c:rc=$rc:$(grep -E '^test result' /tmp/sc_suite_$c.txt | awk '{p+=$4; f+=$6} END {print p"p/"f"f"}')"
+  cargo test --offline -j 12 -p $c > $TD/sc_suite_$c.txt 2>&1; rc=$?
+  SUITE="$SUITE $c:rc=$rc:$(grep -E '^test result' $TD/sc_suite_$c.txt | awk '{p+=$4; f+=$6} END {print p"p/"f"f"}')"
 done
 git checkout -q -- . ; git clean -fdq -e OUT -e target
 echo "== $D demo_clean_rc=$RC_CLEAN demo_mutated_rc=$RC_MUT suite:$SUITE"
-grep -E "^test result|panicked|FAILED|failed" /tmp/sc_mut.txt | head -5
+grep -E "^test result|panicked|FAILED|failed" $TD/sc_mut.txt | head -5
